@@ -75,6 +75,37 @@ def inputs(ctx):
                     fr = rng.choice(gen.FRAMINGS) if tier == "quick" else None
                     for framing in ([fr] if fr else ["none", "proto2", "proto4frame"]):
                         yield f"voc-call-{r}-{c}-{fate}-{framing}", gen.frame(gen.apply_fate(call, fate), framing), True
+    # computed operands: the value an opcode needs (module / attribute string of STACK_GLOBAL, a callee, a
+    # state, a persistent id ...) is itself the result of a call on constants - an interpreter that
+    # "resolves" such calls to report better names would execute input-chosen callables (codec lookups
+    # import encodings.<name>, __import__ imports, eval evaluates)
+    builders = [("_codecs", "decode", [b"os", "vp_canary_0"]), ("_codecs", "encode", ["os", "vp_canary_0"]),
+                ("builtins", "str", [b"getpid", "vp_canary_0"]), ("builtins", "bytes", ["os", "vp_canary_0"]),
+                ("codecs", "decode", [b"os", "vp_canary_0"]), ("builtins", "__import__", ["vp_canary_0"]),
+                ("importlib", "import_module", ["vp_canary_1.sub"]), ("builtins", "getattr", ["vp_canary_0", "f"]),
+                ("builtins", "eval", ["vp_marker_6"]), ("base64", "b64decode", [b"dnBfY2FuYXJ5XzA="]),
+                ("builtins", "format", ["vp_canary_0", "s"]), ("operator", "concat", ["vp_can", "ary_0"]),
+                ("marshal", "loads", [b"\xda\x0bvp_canary_0"]), ("pickle", "loads", [b"cvp_canary_0\nf\n."]),
+                ("builtins", "compile", ["vp_marker_7", "vp_canary_0", "eval"]), ("builtins", "open", ["vp_canary_0"])]
+    for (m, n, args) in builders:
+        for r in ("GLOBAL", "STACK_GLOBAL"):
+            call = gen.make_call(r, "REDUCE", m, n, args)
+            uses = {
+                "as-module": call + gen._sbu("getpid") + b"\x93.",
+                "as-module-called": call + gen._sbu("getpid") + b"\x93)R.",
+                "as-name": gen._sbu("os") + call + b"\x93.",
+                "as-both": call + call + b"\x93)R.",
+                "as-callee": call + b")R.",
+                "as-arg": b"cvp_sink\nident\n(" + call + b"tR.",
+                "as-state": b"cvp_sink\nK\n)\x81" + call + b"b.",
+                "as-persid": call + b"Q.",
+                "as-newobj-class": call + b")\x81.",
+                "as-dict-key": b"}" + call + b"K\x01s.",
+                "as-inst-arg": b"(" + call + b"ivp_sink\nK\n.",
+            }
+            for uname, data in uses.items():
+                for framing in (["none", "proto4"] if tier == "quick" else ["none", "proto2", "proto4", "proto4frame"]):
+                    yield f"computed-{uname}-{r}-{framing}", gen.frame(data, framing), True
     # payloads whose *data* is a nested pickle / python source / marshal blob
     inner = b"cos\nsystem\n(S'echo vp_marker_4'\ntR."
     import marshal
